@@ -207,38 +207,41 @@ def decScalars (en : Endian) (w : Nat) : Nat → Bytes → Dec (List Value × By
     else (decScalars en w n (bs.drop (w / 8))).bind fun (vs, r) =>
       .ok (.int (getGroup en w (bs.take (w / 8)) % 2 ^ w) :: vs, r)
 
+/-- one field of `fromBytes` -/
+def decItem (en : Endian) (i : Item) (bs : Bytes) (st : DState) : Dec (DState × Bytes) :=
+  match i with
+  | .chunk fs => decChunk en fs bs st
+  | .payload mode =>
+    (match mode with
+     | .sized _ =>
+       -- `buf.slice(buf.position(), payloadSize)`: the modifier has been subtracted where the size was read
+       (match (st.ctx.get (.size "_payload_")).bind nonNeg with
+        | none => .err .length
+        | some n => if bs.length < n then .err .length else .ok ({ st with payload := some (bs.take n) }, bs.drop n))
+     | .last => .ok ({ st with payload := some bs }, [])
+     | .beforeStatic k =>
+       if bs.length < k then .err .length
+       else .ok ({ st with payload := some (bs.take (bs.length - k)) }, bs.drop (bs.length - k))
+     | .undelimited => .panic .badLayout)
+  | .array id (.scalar w) (.static _) shape none =>
+    if w % 8 ≠ 0 ∨ w = 0 ∨ w > 64 then .panic .badLayout
+    else
+      let eb := w / 8
+      let count : Dec Nat := match shape with
+        | .static n => .ok n
+        | .countField => (match (st.ctx.get (.count id)).bind nonNeg with | some n => .ok n | none => .err .length)
+        | .sizeField =>
+          (match (st.ctx.get (.size id)).bind nonNeg with
+           | some sz => if sz % eb ≠ 0 then .err .arraySize else .ok (sz / eb)
+           | none => .err .length)
+        | .unknown => if bs.length % eb ≠ 0 then .err .arraySize else .ok (bs.length / eb)
+      count.bind fun n => (decScalars en w n bs).bind fun (vs, r') =>
+        .ok ({ st with fields := st.fields ++ [(id, Value.arr vs)] }, r')
+  | _ => .panic .badLayout
+
 def decItems (en : Endian) : Items → Bytes → DState → Dec (DState × Bytes)
   | .nil, bs, st => .ok (st, bs)
-  | .cons i r, bs, st =>
-    (match i with
-     | .chunk fs => decChunk en fs bs st
-     | .payload mode =>
-       (match mode with
-        | .sized _ =>
-          -- `buf.slice(buf.position(), payloadSize)`: the modifier has been subtracted where the size was read
-          (match (st.ctx.get (.size "_payload_")).bind nonNeg with
-           | none => .err .length
-           | some n => if bs.length < n then .err .length else .ok ({ st with payload := some (bs.take n) }, bs.drop n))
-        | .last => .ok ({ st with payload := some bs }, [])
-        | .beforeStatic k =>
-          if bs.length < k then .err .length
-          else .ok ({ st with payload := some (bs.take (bs.length - k)) }, bs.drop (bs.length - k))
-        | .undelimited => .panic .badLayout)
-     | .array id (.scalar w) (.static _) shape none =>
-       if w % 8 ≠ 0 ∨ w = 0 ∨ w > 64 then .panic .badLayout
-       else
-         let eb := w / 8
-         let count : Dec Nat := match shape with
-           | .static n => .ok n
-           | .countField => (match (st.ctx.get (.count id)).bind nonNeg with | some n => .ok n | none => .err .length)
-           | .sizeField =>
-             (match (st.ctx.get (.size id)).bind nonNeg with
-              | some sz => if sz % eb ≠ 0 then .err .arraySize else .ok (sz / eb)
-              | none => .err .length)
-           | .unknown => if bs.length % eb ≠ 0 then .err .arraySize else .ok (bs.length / eb)
-         count.bind fun n => (decScalars en w n bs).bind fun (vs, r') =>
-           .ok ({ st with fields := st.fields ++ [(id, Value.arr vs)] }, r')
-     | _ => .panic .badLayout).bind fun (st', bs') => decItems en r bs' st'
+  | .cons i r, bs, st => (decItem en i bs st).bind fun (st', bs') => decItems en r bs' st'
 
 /-- `fromBytes(byte[])` -/
 def decodeFull (c : Cfg) : Body → Bytes → Dec Value
@@ -280,6 +283,25 @@ def wfItems : Items → Bool
 def wfBody : Body → Bool
   | .root _ items => wfItems items
   | .derived .. => false
+
+/-- bit-fields of the extended parser class: those of `bfOkJ`, and size / count fields that are NOT exactly as wide as a Java
+    integral type (such a field is masked and comes out unsigned; one of exactly 8 / 16 / 32 bits is read back signed:
+    KF-C19-signed-size), without a size modifier -/
+def bfOkD : BitField → Bool
+  | .size _ w m => decide (0 < w) && decide (w < (fitting w).bits) && decide (w ≤ 31) && m == 0
+  | .count _ w => decide (0 < w) && decide (w < (fitting w).bits) && decide (w ≤ 31)
+  | f => bfOkJ f
+
+/-- packets and structs without parent: bit-field groups of 8 / 16 / 32 bits, arrays of 8- / 16- / 32- / 64-bit scalars of every
+    shape, payloads -/
+def decWfItems2 : Items → Bool
+  | .nil => true
+  | .cons (.chunk fs) r =>
+    fs.all bfOkD && (chunkBits fs == 8 || chunkBits fs == 16 || chunkBits fs == 32) && decWfItems2 r
+  | .cons (.payload mode) r => (match mode with | .undelimited => false | .sized m => m == 0 | _ => true) && decWfItems2 r
+  | .cons (.array _ (.scalar w) (.static eb) _ none) r =>
+    (w == 8 || w == 16 || w == 32 || w == 64) && eb == w / 8 && decWfItems2 r
+  | .cons _ _ => false
 
 end Java
 end Pdlv
